@@ -230,7 +230,7 @@ pub fn run(thorough: bool) -> Vec<Part> {
             dcfg.allow_defer = true;
             dcfg.answer_requests = true;
             dcfg.empty_reads = false;
-            dcfg.offer_when_queued_le = 24;
+            dcfg.offer_when_queued_le = if thorough { 24 } else { 18 };
             let st = bfs(&dcfg, &Limits { max_states: if thorough { 3_000_000 } else { 400_000 }, max_secs: if thorough { 600.0 } else { 40.0 }, ..Default::default() }, workers());
             record(&mut part, &dcfg.label, &st);
             for (v, _) in &st.violations {
